@@ -16,6 +16,7 @@ pub mod cidecho;
 pub mod dgram;
 pub mod mtud;
 pub mod streams;
+pub mod streams_hist;
 pub mod wire;
 pub mod rxpn;
 pub mod rcv;
